@@ -111,14 +111,32 @@ pub fn run(kind: &str, args: &[i64]) -> String {
         }
         "utc_total" => {
             let total = (a(args, 0) as i128).wrapping_mul(a(args, 1) as i128).wrapping_add(a(args, 2) as i128);
-            match UtcDateTime::from_total_nanoseconds(total) {
-                Ok(u) => canon::utc(&mut o, &u),
-                Err(e) => canon::anyerr(&mut o, e),
-            }
             let l = LocalTimeType::with_ut_offset(a(args, 3) as i32).unwrap_or(LocalTimeType::utc());
-            match DateTime::from_total_nanoseconds_and_local(total, l) {
-                Ok(d) => canon::dt(&mut o, &d),
-                Err(e) => canon::anyerr(&mut o, e),
+            // second total: a seconds count whose low 64 bits alone look like a supported time while the
+            // whole does not fit in 64 bits (a narrowing conversion that only watches the sign lets it through)
+            let hi = (a(args, 0) as i128 % 1024) << 64;
+            let total2 = (hi + a(args, 2) as i128 % 60_000_000_000_000_000).wrapping_mul(1_000_000_000).wrapping_add(a(args, 1) as i128 % 1_000_000_000);
+            for total in [total, total2] {
+                // an accepted total must be the total of the value handed back: anything else is an
+                // out-of-range input that was not refused (C07: invalid input yields an error value)
+                match UtcDateTime::from_total_nanoseconds(total) {
+                    Ok(u) => {
+                        canon::utc(&mut o, &u);
+                        if u.total_nanoseconds() != total {
+                            let _ = write!(o, " C07VALUE[UtcDateTime::from_total_nanoseconds({total}) accepted as total {}]", u.total_nanoseconds());
+                        }
+                    }
+                    Err(e) => canon::anyerr(&mut o, e),
+                }
+                match DateTime::from_total_nanoseconds_and_local(total, l) {
+                    Ok(d) => {
+                        canon::dt(&mut o, &d);
+                        if d.total_nanoseconds() != total {
+                            let _ = write!(o, " C07VALUE[DateTime::from_total_nanoseconds_and_local({total}) accepted as total {}]", d.total_nanoseconds());
+                        }
+                    }
+                    Err(e) => canon::anyerr(&mut o, e),
+                }
             }
         }
         "dt_ts_local" => {
